@@ -25,6 +25,59 @@ def norm(s):
     return " ".join(t.text for t in toks)
 
 
+
+_KW = {"mut", "ref", "self", "Some", "Ok", "Err", "None", "_", "true", "false", "in", "let", "if", "else", "match", "move"}
+
+
+def bound_locals(body):
+    """names bound inside a function body, in source order (let / for / closure parameters / if-let / while-let / match arms)"""
+    out = []
+    def add_pat(p):
+        p = re.sub(r":[^,|)]*", "", p)            # type ascriptions
+        for nm in re.findall(r"[A-Za-z_]\w*", p):
+            if nm in _KW or nm[0].isupper():
+                continue
+            out.append(nm)
+    for m in re.finditer(r"\blet\s+([^=;]+?)\s*(?::[^=;]+)?=[^=]|\bfor\s+(.+?)\s+in\b|\|([^|\n]{0,80})\|\s*[{(\w!&*]|=>\s*\{?|\b(?:Some|Ok|Err)\(\s*([a-z_]\w*)\s*\)\s*=>", body):
+        if m.group(1) is not None:
+            add_pat(m.group(1))
+        elif m.group(2) is not None:
+            add_pat(m.group(2))
+        elif m.group(3) is not None:
+            add_pat(m.group(3))
+        elif m.group(4) is not None:
+            add_pat(m.group(4))
+    return out
+
+
+_DERIVED = ("", "idx_", "nxt_", "nxt_idx_", "ents_", "keys_", "sorted_", "pairs_", "snap_")
+
+
+def alpha_map(base, now):
+    """a renaming old -> new when `now` is `base` with some names consistently replaced by fresh ones, else {}"""
+    if not base or base == now or len(base) != len(now):
+        return {}
+    sb, sn = set(base), set(now)
+    mp = {}
+    for b, n in zip(base, now):
+        if b == n:
+            continue
+        if b in sn or n in sb:
+            return {}                      # a reordering or a reuse, not a rename
+        if mp.setdefault(b, n) != n:
+            return {}
+    if len(set(mp.values())) != len(mp):
+        return {}
+    return mp
+
+
+def alpha_apply(text, mp):
+    for old, new in mp.items():
+        for pre in _DERIVED:
+            text = re.sub(r"\b" + re.escape(pre + old) + r"\b", pre + new, text)
+    return text
+
+
 class Unit:
     def __init__(self, name, repo=None):
         self.name = name
@@ -50,6 +103,16 @@ class Unit:
             self.preamble = open(os.path.join(d, "preamble.rs")).read() + "\n" + self.preamble
             for key in ("struct_check", "const", "rule", "fn"):
                 self.cfg[key] = ic.get(key, []) + self.cfg.get(key, [])
+        # names of the locals each extracted function binds, in source order, as they were when the contracts were last
+        # verified (baseline): lets a pure RENAME of a local be followed by the contract text (see `alpha_map`)
+        self.base_locals = {}
+        try:
+            import json as _json
+            with open(os.path.join(self.dir, "baseline.json")) as f:
+                self.base_locals = _json.load(f).get("locals", {})
+        except Exception:
+            self.base_locals = {}
+        self.locals = {}
         self.log = []          # rule instances
         self.items = []        # dicts: id, file, lines, sha, text (rewritten), owner
         self.context = {}      # struct / const hashes
@@ -124,6 +187,34 @@ class Unit:
         names = f.get("rules", [])
         sig_end = item.body_open - item.start
         sig, body = raw[:sig_end], raw[sig_end:]
+        now = bound_locals(body)
+        self.locals[fid] = now
+        mp = alpha_map(self.base_locals.get(fid), now)
+        if mp:
+            import copy as _copy
+            texts = [f.get("spec", "")] + [lp.get("spec", "") for lp in f.get("loop", [])] + [g.get("code", "") + " " + g.get("at", "") for g in f.get("ghost", [])]
+            words = set(re.findall(r"[A-Za-z_]\w*", " ".join(texts)))
+            if any(new in words or any((pre + new) in words for pre in _DERIVED) for new in mp.values()):
+                mp = {}                    # the new name already means something in the contract text: do not touch it
+        if mp:
+            f = _copy.deepcopy(f)
+            f["spec"] = alpha_apply(f.get("spec", ""), mp)
+            for lp in f.get("loop", []):
+                lp["spec"] = alpha_apply(lp.get("spec", ""), mp)
+            for g in f.get("ghost", []):
+                g["code"] = alpha_apply(g.get("code", ""), mp)
+                g["at"] = alpha_apply(g.get("at", ""), mp)
+            def _ren(x):
+                if isinstance(x, str):
+                    return alpha_apply(x, mp)
+                if isinstance(x, list):
+                    return [_ren(y) for y in x]
+                if isinstance(x, dict):
+                    return {_ren(k): _ren(v) for k, v in x.items()}
+                return x
+            f["cfg"] = _ren(f.get("cfg", {}))
+            if not canary:
+                self.log.append("%s: ALPHA: local(s) renamed in the source, contract text follows: %s" % (fid, ", ".join("`%s` -> `%s`" % kv for kv in sorted(mp.items()))))
         # --- signature
         sig = " ".join(sig.split())
         for pat, rep in f.get("sigmap", []) + self.cfg.get("sigmap", []):
